@@ -571,6 +571,23 @@ def rule_E1(ctx, rep, rid='E1'):
         T = Terms(body)
         sends = [bi for bi, t in body.calls() if callee_is(t, *SEND_CALLS) and not body.blocks[bi]['cleanup']]
         name = adt.rsplit('::', 1)[-1]
+        # an error the adapter makes up itself must not be of kind Interrupted: std's BufWriter (and write_all) retry that
+        # kind silently, so a persistent refusal reported as Interrupted never comes back to the caller of emit/flush
+        made = []
+        for bi, blk in enumerate(body.blocks):
+            if blk['cleanup'] or blk.get('dead'):
+                continue
+            for si, s in enumerate(blk['stmts']):
+                if s['k'] == 'assign' and s['rv']['k'] == 'agg' and str(s['rv'].get('path', '')).endswith('io::error::ErrorKind') and s['rv'].get('variant') == 'Interrupted':
+                    made.append(bi)
+            if blk['term']['k'] == 'call':
+                for a_ in blk['term']['args']:
+                    if a_.get('k') == 'const' and 'ErrorKind' in str(a_.get('ty', '')) and 'Interrupted' in str(a_.get('repr', '')):
+                        made.append(bi)
+            if blk['term']['k'] == 'call' and any(y[0] == 'adt' and str(y[1]).endswith('io::error::ErrorKind') and y[2] == 'Interrupted' for y in walk(norm(T.call_term(bi)))):
+                made.append(bi)
+        rep.ob(rid, '%s/no-made-up-interrupted-error' % name, not made, body.where(made[0]) if made else body.where(),
+               'the adapter never fabricates an io::ErrorKind::Interrupted error (BufWriter would retry it forever)')
         for bi in sends:
             ok_e, err_e, _ = outcomes(T, bi)
             ct = norm(T.call_term(bi))
